@@ -183,6 +183,54 @@ def target_enum_width():
     return pyvc.collect(paths, "_verify_width_attribute_on_enum"), sum(1 for p in paths if p.covered)
 
 
-TARGETS = {"fixed_size": target_fixed_size, "size_attributes": target_size_attributes, "enum_attributes": target_enum_attributes, "enum_width": target_enum_width}
-FUNCTIONS = ["_fixed_size_of_struct_or_bits", "_verify_size_attributes_on_structure", "_add_missing_size_attributes_on_structure",
+def target_gather_defaults():
+    """attribute_util.gather_default_attributes: the defaults visible below a node are the inherited ones, overridden (by
+    name) by the node's own `$default` attributes; nothing inherited is lost, non-default attributes do not become
+    defaults, the stored copies are not themselves marked `$default`, and the inherited dict is not modified."""
+    au = importlib.import_module("compiler.util.attribute_util")
+    idu = importlib.import_module("compiler.util.ir_data_utils")
+    eng = pyvc.Engine()
+    eng.contract(idu.copy, lambda interp, a: SRec("Attribute", dict(a.f, ghost_copy_of=a)), "ir_data_utils.copy")
+    NAMES = ["byte_order", "enum_case", "namespace"]
+
+    def harness(c):
+        inherited = {}
+        for nm in NAMES[:2]:
+            if c.choice("inherited:" + nm, ["no", "yes"]) == "yes":
+                inherited[nm] = SRec("Attribute", {"name": SRec("Word", {"text": nm}), "is_default": False, "ghost_origin": "outer"})
+        n = int(c.choice("own-attributes", ["0", "1", "2"]))
+        own = []
+        for i in range(n):
+            nm = c.choice("a%d" % i, NAMES)
+            dflt = c.choice("a%d:$default" % i, ["yes", "no"]) == "yes"
+            own.append(SRec("Attribute", {"name": SRec("Word", {"text": nm}), "is_default": dflt, "ghost_origin": "own%d" % i}))
+        before = dict(inherited)
+        obj = SRec("TypeDefinition", {"attribute": own})
+        c.covered = True
+        st, got = pyvc.run_body(c, "compiler.util.attribute_util.gather_default_attributes", [obj, inherited])
+        # the result updates the traversal's parameters: a missing "defaults" key leaves the inherited dict in force
+        ok = isinstance(got, dict) and set(got) <= {"defaults"} and isinstance(got.get("defaults", {}), dict)
+        c.oblige("returns-a-parameter-update-for-`defaults`", ok, detail=repr(got)[:200])
+        if not ok:
+            return
+        res = got.get("defaults", inherited)
+        want = dict((k_, ("outer", None)) for k_ in before)
+        for i, a in enumerate(own):
+            if a.f["is_default"]:
+                want[a.f["name"].f["text"]] = ("own", a)
+        c.oblige("defaults-are-the-inherited-ones-overridden-by-the-node's-own", set(res) == set(want), detail="got %s want %s" % (sorted(res), sorted(want)))
+        for k_, (src, a) in want.items():
+            if k_ not in res:
+                continue
+            if src == "outer":
+                c.oblige("inherited-default-kept[%s]" % k_, res[k_] is before[k_])
+            else:
+                c.oblige("own-default-is-a-copy-not-marked-$default[%s]" % k_, res[k_].f.get("ghost_copy_of") is a and res[k_].f["is_default"] is False and a.f["is_default"] is True)
+        c.oblige("inherited-dict-not-modified", inherited == before)
+    paths = eng.explore(harness)
+    return pyvc.collect(paths, "gather_default_attributes"), sum(1 for p in paths if p.covered)
+
+
+TARGETS = {"gather_defaults": target_gather_defaults, "fixed_size": target_fixed_size, "size_attributes": target_size_attributes, "enum_attributes": target_enum_attributes, "enum_width": target_enum_width}
+FUNCTIONS = ["(attribute_util) gather_default_attributes", "_fixed_size_of_struct_or_bits", "_verify_size_attributes_on_structure", "_add_missing_size_attributes_on_structure",
              "_add_missing_width_and_sign_attributes_on_enum", "_verify_width_attribute_on_enum"]
